@@ -443,6 +443,53 @@ def check_float_exactness(case, ctx):
         shutil.rmtree(tmp, ignore_errors=True)
 
 
+def locked_close_cases(tier):
+    return [{"n": n, "batch": b} for n, b in ((2, 3), (5, 1000), (4, 4))]
+
+
+def check_locked_close(case, ctx):
+    """'After close everything is committed': another connection holds a read transaction while the writer is closed,
+    so the final COMMIT cannot get its lock.  close() may fail - but when it RETURNS, every accepted record is in
+    the database (seen by a fresh connection once the reader has gone)."""
+    from flow.record import RecordDescriptor
+    from flow.record.adapter.sqlite import SqliteWriter
+
+    ctx.nontriv()
+    ctx.cls("close-while-a-reader-holds-its-lock", "batch:%d" % case["batch"])
+    desc = RecordDescriptor("c18/locked", [("string", "s"), ("varint", "n")])
+    tmp = ctx.fresh_dir()
+    try:
+        p = os.path.join(tmp, "l.db")
+        w = SqliteWriter(p, batch_size=case["batch"])
+        for i in range(case["n"]):
+            w.write(desc("v%d" % i, i, _generated=GEN))
+        reader = sqlite3.connect(p)
+        reader.execute("BEGIN")
+        reader.execute("SELECT count(*) FROM sqlite_master").fetchall()
+        first = impl(w.close)
+        reader.rollback()
+        reader.close()
+        closed_ok = first.ok
+        if not first.ok:
+            ctx.cls("close-raised:" + first.type)
+            second = impl(w.close)
+            closed_ok = second.ok
+            ctx.cls("second-close:%s" % ("ok" if second.ok else second.type))
+        if closed_ok:
+            con = sqlite3.connect(p)
+            try:
+                rows = [r[0] for r in con.execute('SELECT n FROM "c18/locked" ORDER BY n')]
+            finally:
+                con.close()
+            if rows != list(range(case["n"])):
+                raise Violation("sqlite/close-returned-but-not-committed", "close() returned (%s) with %d accepted records, "
+                                "the database holds n = %r" % ("at once" if first.ok else "on the second call", case["n"], rows),
+                                detail="first-close" if first.ok else "retried-close")
+    finally:
+        shutil.rmtree(tmp, ignore_errors=True)
+
+
 def parts(tier):
-    return [Part("float-exactness", check_float_exactness, cases=float_cases, exhaustive=True),
+    return [Part("close-under-lock", check_locked_close, cases=locked_close_cases, exhaustive=True, shards=3),
+            Part("float-exactness", check_float_exactness, cases=float_cases, exhaustive=True),
             Part("histories", check, strategy=case_strategy(), examples=(300, 8000))]
